@@ -42,6 +42,8 @@ pub struct Ctx {
     pub replay_case: Option<String>,
     /// free-form extra argument (used by C14's transcript mode and sanitizer sub-runs)
     pub mode: Option<String>,
+    /// listed (unfixed) known findings of this property
+    pub known: std::sync::Arc<KnownSet>,
 }
 
 #[derive(Clone, Debug)]
@@ -63,9 +65,24 @@ pub struct Local {
     pub violations: Vec<Violation>,
     pub inconclusive: Vec<String>,
     pub case_id: String,
+    /// known-finding id -> number of violations whose signature is listed
+    pub known_counts: BTreeMap<String, u64>,
+    /// distinct non-trivial cases that are distinct by construction (exhaustive enumerations)
+    pub enumerated_distinct: u64,
+    pub known: std::sync::Arc<KnownSet>,
 }
 
 impl Local {
+    pub fn with_known(known: std::sync::Arc<KnownSet>) -> Self {
+        Local { known, ..Default::default() }
+    }
+    /// cheap classification without building a violation (for bulk enumerations)
+    pub fn known_id(&self, signature: &str) -> Option<String> {
+        self.known.classify(signature)
+    }
+    pub fn known_hit(&mut self, id: &str) {
+        *self.known_counts.entry(id.to_string()).or_insert(0) += 1;
+    }
     pub fn count(&mut self, key: &str, n: u64) {
         *self.counters.entry(key.to_string()).or_insert(0) += n;
     }
@@ -98,8 +115,14 @@ impl Local {
         }
     }
     pub fn violation(&mut self, signature: impl Into<String>, summary: impl Into<String>, detail: Value) {
+        let signature: String = signature.into();
+        self.count("oracle_violations_raw", 1);
+        if let Some(id) = self.known.classify(&signature) {
+            *self.known_counts.entry(id).or_insert(0) += 1;
+            return;
+        }
         let v = Violation {
-            signature: signature.into(),
+            signature,
             summary: summary.into(),
             case_id: self.case_id.clone(),
             detail,
@@ -110,7 +133,6 @@ impl Local {
         } else {
             self.count("violations_dropped_over_cap", 1);
         }
-        self.count("oracle_violations_raw", 1);
     }
     pub fn inconclusive(&mut self, why: impl Into<String>) {
         if self.inconclusive.len() < 20 {
@@ -152,6 +174,10 @@ impl Mon {
         g.distinct.extend(l.distinct);
         g.nontrivial.extend(l.nontrivial);
         g.evaluations += l.evaluations;
+        g.enumerated_distinct += l.enumerated_distinct;
+        for (k, v) in l.known_counts {
+            *g.known_counts.entry(k).or_insert(0) += v;
+        }
         for s in l.samples {
             if g.samples.len() < 6 {
                 g.samples.push(s);
@@ -256,7 +282,7 @@ where
     std::thread::scope(|s| {
         for _ in 0..workers {
             s.spawn(|| {
-                let mut local = Local::default();
+                let mut local = Local::with_known(ctx.known.clone());
                 loop {
                     let idx = next.fetch_add(1, Ordering::Relaxed);
                     if idx >= n {
@@ -279,7 +305,7 @@ where
                     guarded(&mut local, &prefix, &format!("case {id}"), |l| f(&cc, &mut rng, l));
                     if local.violations.len() >= 150 {
                         // flush early so that memory stays bounded
-                        mon.absorb(std::mem::take(&mut local));
+                        mon.absorb(std::mem::replace(&mut local, Local::with_known(ctx.known.clone())));
                     }
                 }
                 mon.absorb(local);
@@ -313,6 +339,26 @@ pub struct KnownFinding {
     /// optional file (relative to /verif) holding one signature per line
     pub signature_file: Option<String>,
     pub what_fails: String,
+}
+
+/// the unfixed known findings of one property, ready for classification
+#[derive(Default)]
+pub struct KnownSet {
+    pub entries: Vec<(KnownFinding, HashSet<String>)>,
+}
+
+impl KnownSet {
+    pub fn load(root: &std::path::Path, prop: &str) -> Self {
+        KnownSet { entries: load_known(root, prop) }
+    }
+    pub fn classify(&self, sig: &str) -> Option<String> {
+        for (kf, set) in &self.entries {
+            if !kf.fixed && sig_matches(set, sig) {
+                return Some(kf.id.clone());
+            }
+        }
+        None
+    }
 }
 
 pub fn load_known(root: &std::path::Path, prop: &str) -> Vec<(KnownFinding, HashSet<String>)> {
@@ -404,23 +450,9 @@ pub fn finish(ctx: &Ctx, mon: &Mon, spec: Spec) -> i32 {
     let g = mon.inner.lock().unwrap();
     let known = load_known(&ctx.root, &ctx.prop);
 
-    // classify
-    let mut known_hits: BTreeMap<String, u64> = BTreeMap::new();
-    let mut fresh: Vec<&Violation> = vec![];
-    for v in &g.violations {
-        let mut hit = None;
-        for (kf, set) in &known {
-            if !kf.fixed && sig_matches(set, &v.signature) {
-                hit = Some(kf.id.clone());
-                break;
-            }
-        }
-        match hit {
-            Some(id) => *known_hits.entry(id).or_insert(0) += 1,
-            None => fresh.push(v),
-        }
-    }
-
+    // violations were classified against the known-findings list when they were recorded
+    let known_hits: BTreeMap<String, u64> = g.known_counts.clone();
+    let fresh: Vec<&Violation> = g.violations.iter().collect();
     for (kf, _) in &known {
         if kf.fixed {
             continue;
@@ -477,10 +509,10 @@ pub fn finish(ctx: &Ctx, mon: &Mon, spec: Spec) -> i32 {
                 unmet.push(format!("observed {k}={have} < required {min}"));
             }
         }
-        if (g.nontrivial.len() as u64) < spec.min_nontrivial {
+        if (g.nontrivial.len() as u64 + g.enumerated_distinct) < spec.min_nontrivial {
             unmet.push(format!(
                 "distinct_nontrivial={} < required {}",
-                g.nontrivial.len(),
+                g.nontrivial.len() as u64 + g.enumerated_distinct,
                 spec.min_nontrivial
             ));
         }
@@ -505,7 +537,7 @@ pub fn finish(ctx: &Ctx, mon: &Mon, spec: Spec) -> i32 {
     }
     let mut coverage = Map::new();
     coverage.insert("evaluations".into(), json!(g.evaluations));
-    coverage.insert("distinct_nontrivial".into(), json!(g.nontrivial.len()));
+    coverage.insert("distinct_nontrivial".into(), json!(g.nontrivial.len() as u64 + g.enumerated_distinct));
     coverage.insert("distinct_cases".into(), json!(g.distinct.len()));
     coverage.insert("rule".into(), json!(spec.rule));
     coverage.insert("samples".into(), json!(g.samples));
@@ -545,7 +577,7 @@ pub fn finish(ctx: &Ctx, mon: &Mon, spec: Spec) -> i32 {
         ctx.seed,
         verdict,
         g.evaluations,
-        g.nontrivial.len(),
+        g.nontrivial.len() as u64 + g.enumerated_distinct,
         fresh.len(),
         known_hits.values().sum::<u64>(),
         wall
